@@ -12,7 +12,7 @@ cp "$wt/SEEDED/patch.diff" "$wt/SEEDED/meta.json" "$out/" || exit 2
 cp "$wt/SEEDED/seeded_demo.rs" "$out/seeded_demo.rs" || exit 2
 cd "$wt" || exit 2
 export CARGO_NET_OFFLINE=true
-git checkout -q -- src Cargo.toml 2>/dev/null
+git checkout -q -- . 2>/dev/null
 cp "$out/seeded_demo.rs" tests/seeded_demo.rs
 cargo test --offline --features verif_seam --test seeded_demo >"$wt/v_demo_orig.log" 2>&1; d0=$?
 git apply "$out/patch.diff" || { echo "$id: patch does not apply"; exit 2; }
